@@ -195,7 +195,25 @@ func Run(w *World, cfg *RunConfig) (*Report, error) {
 			ex.worker(s)
 		}()
 	}
+	doneCh := make(chan struct{})
+	if os.Getenv("WSYM_PROGRESS") != "" {
+		go func() {
+			tk := time.NewTicker(10 * time.Second)
+			defer tk.Stop()
+			for {
+				select {
+				case <-doneCh:
+					return
+				case <-tk.C:
+					ex.mu.Lock()
+					fmt.Fprintf(os.Stderr, "[%s %.0fs] paths=%d queue=%d active=%d viol=%d\n", cfg.Harness[strings.LastIndex(cfg.Harness, ".")+1:], time.Since(t0).Seconds(), ex.rep.Paths, len(ex.work), ex.active, len(ex.rep.Violations))
+					ex.mu.Unlock()
+				}
+			}
+		}()
+	}
 	wg.Wait()
+	close(doneCh)
 	for _, s := range solvers {
 		ex.rep.Queries += s.Queries
 		ex.rep.SolverSec += s.Time.Seconds()
@@ -233,6 +251,20 @@ func (ex *Explorer) worker(s *Solver) {
 		ex.mu.Unlock()
 
 		res := ex.runPath(s, p)
+		if s.Dead() {
+			ex.mu.Lock()
+			ex.rep.Queries += s.Queries
+			ex.rep.SolverSec += s.Time.Seconds()
+			ex.rep.Unknowns = appendUniq(ex.rep.Unknowns, []string{"a solver process stopped answering and was restarted"}, 50)
+			ex.mu.Unlock()
+			s.Close()
+			ns, err := NewSolver(ex.Cfg.Solver, ex.Cfg.TimeoutMs)
+			if err != nil {
+				fmt.Fprintf(os.Stderr, "solver restart: %v\n", err)
+			} else {
+				*s = *ns
+			}
+		}
 
 		ex.mu.Lock()
 		ex.active--
